@@ -199,9 +199,13 @@ def _task_specs(op):
         if op.startswith("ptasks "):
             rl = [] if f[1] == "-" else f[1].split(",")
             wl = [] if f[2] == "-" else f[2].split(",")
-            rows = dict((n, False) for n in rl)
-            rows.update((n, True) for n in wl)
-            res.append((waits, rows, "b" if set(rl) & set(wl) else ""))
+            ns = f[3].partition("~")[2] if len(f) == 4 else ""      # nested: names live in the parent's lock namespace
+
+            def eff(n):
+                return n if n.startswith("@") else ns + n
+            rows = dict((eff(n), False) for n in rl)
+            rows.update((eff(n), True) for n in wl)
+            res.append((waits, rows, ("b" if set(rl) & set(wl) else "") + ("N" if len(f) == 4 else "") + ("L" if ns else "")))
             continue
         rows = {} if f[1] in ("-", "") else dict((r.split(":")[0], r.split(":")[1] == "w") for r in f[1].split(","))
         res.append((waits, rows, f[2] if len(f) == 3 else ""))
@@ -282,10 +286,19 @@ def _features(op, impl):
         specs = _task_specs(op)
         f.append("ptasks:" + op.split(" | ")[1].split(" ")[0])
         for i, (_, rows, fl) in enumerate(specs):
-            if fl and any(n in rows2 for j, (_, rows2, _) in enumerate(specs) if j != i
-                          for n in rows if rows[n]):
+            if "b" in fl and any(n in rows2 for j, (_, rows2, _) in enumerate(specs) if j != i
+                                 for n in rows if rows[n]):
                 f.append("ptasks:name-in-both-lists-contended")
                 break
+        if any("N" in fl for _, _, fl in specs):
+            f.append("ptasks:nested")
+        if any("L" in fl for _, _, fl in specs):
+            f.append("ptasks:lock-namespace")
+        if any(n.startswith("@") for _, rows, _ in specs for n in rows):
+            f.append("ptasks:global-name")
+        if any("N" in fl and not n.startswith("@") and n in rows2 and (rows[n] or rows2[n])
+               for i, (_, rows, fl) in enumerate(specs) for j, (_, rows2, _) in enumerate(specs) if j != i for n in rows):
+            f.append("ptasks:nested-contends-on-plain-name")
         if any(w for w, _, _ in specs):
             f.append("ptasks:wait-list")
     elif k == "tasks":
@@ -447,7 +460,10 @@ def run(ctx):
                 "command line `pip:run --rlock=<list> --wlock=<list> --wait=<list>` (termexec.RunString), every written name "
                 "is in the wlock list and with probability 1/2 ALSO in the rlock list, in shuffled positions; the bodies "
                 "record intervals judged by the Lean interval monitor against the map the lists stand for (wlock wins: "
-                "Lean `parseLocks`), the map the task was created with is read back and compared; tasks "
+                "Lean `parseLocks`), the map the task was created with is read back and compared; in half of the ptasks sets 40-100%% "
+                "of the tasks are NESTED submissions (the command line is the body of a parent task of its own, started through "
+                "Runner.Run so that parents run concurrently, in lock namespace ``/`ns`/`a`/`x:`), with a global `@g` name in "
+                "the pool: effective names by Lean `nestedLocks` (lock namespace inherited, task names irrelevant); tasks "
                 "oracle: the family + %d further task sets per 8 shards; non-trivial = a wait list or a shared name"
                 % (n_rand, n_oracle, n_tasks, n_toracle))
     ops = []
@@ -487,7 +503,9 @@ def run(ctx):
         if _kind(ops[i]) == "ptasks":
             why += (" - the bodies of tasks created by `pip:run --rlock=… --wlock=…`; the rows of each interval are what the "
                     "two lists of the task stand for (a name of the wlock list is held read-write even if the rlock list "
-                    "names it too)")
+                    "names it too; a name lives in the LOCK namespace of the scope that runs pip:run - a nested task "
+                    "`<waits>/<rlock>/<wlock>/<parent>[~<lock namespace>]` inherits it from its parent whatever the task "
+                    "names are - and `@name` is global: Lean `nestedLocks`)")
         ctx.violation("impl-vs-spec", why, lines=[ops[i]],
                       annotations=["trace: " + t, "monitor: " + v], concrete=True)
     # --- line-by-line comparison
@@ -550,6 +568,7 @@ def run(ctx):
                       lines=[m.group(1)] if m else [], annotations=["oracle: " + f], concrete=True)
     for k in ("parties", "parties:waiters=1", "parties:waiters=3", "parties:multi-entry-waiter-and-late-comer",
               "parties:read-overlap", "ptasks:adv", "ptasks:rnd", "ptasks:name-in-both-lists-contended", "ptasks:wait-list",
+              "ptasks:nested", "ptasks:lock-namespace", "ptasks:global-name", "ptasks:nested-contends-on-plain-name",
               "sched:~w", "sched:~a", "sched:~r", "sched:ND", "locks:err", "locks:map", "tasks:adv", "tasks:rnd",
               "tasks:wait-list", "tasks:dependant-shares-resource", "tasks:nested-body", "tasks:failing-body",
               "tasks:failed-holder-then-needed", "tasks:failing-prerequisite", "tasks:several-scope-groups"):
